@@ -128,8 +128,12 @@ TEXT = {
             'closing, descriptor numbers reused): one map beta from connection instances to clients is right at every moment, a '
             'response supplied with token (fd,g) reaches the entry of instance g = client beta g, bytes enter a client\'s receive '
             'queue only from the unsent output of a connection of that client (or as its own 503), and unsent output has only two '
-            'sources (own server-generated replies, responses with that entry\'s token). PARTIAL: the concatenation of these links '
-            'into one sentence about the whole byte stream a client reads is not a single theorem; delivery to the peer is K3 (kernel contract). Decided on '
+            'sources (own server-generated replies, responses with that entry\'s token). THE WHOLE STREAM (C07_stream_provenance): '
+            'over every history of truthful polls (any batch order, any partial read/write), responses for held tokens, flushes and arbitrary '
+            'client/environment behaviour, what each client has received is nothing, its own 503, or a prefix of the serialisation of a '
+            'response sequence of its one connection instance whose elements are server-generated replies (100/400) or responses supplied '
+            'with a token of that instance, the latter a subsequence of the supplied ones (at most once, in order); responses supplied + '
+            'tokens held = requests yielded, per instance. Delivery to the peer is K3, truthful hang-up reports K4 (kernel contract). Decided on '
             'real Unix sockets with tagged requests and echoing responses, incl. close-with-in-flight + reconnect + late answer.',
             'DESIGN.md section 5 C07', 'Coq proof (world invariant, inductive over events/respond/flush/sweep) + real-socket correspondence'),
     'C08': ('Coq theorems: the interest invariant (state / pending output / epoll interest agree) holds between API calls and is '
